@@ -43,7 +43,7 @@ VARIANTS = {
     "hook": dict(cc="gcc", flags="-O1 -g -DORC_VERIF_HOOKS"),
     # memory-safety observers only: signed shifts/overflows in the instruction encoders are
     # not what any property is about (and are relied upon everywhere in the code base)
-    "asan": dict(cc="gcc", flags="-O1 -g -DORC_VERIF_HOOKS -fsanitize=address,bounds,null,object-size,"
+    "asan": dict(cc="gcc", flags="-O1 -g -DORC_VERIF_HOOKS -fsanitize=address,bounds,object-size,"
                                   "pointer-overflow,return,unreachable,vla-bound -fno-sanitize-recover=all "
                                   "-fno-omit-frame-pointer"),
     "tsan": dict(cc="clang", flags="-O1 -g -DORC_VERIF_HOOKS -fsanitize=thread"),
